@@ -22,3 +22,8 @@
   (and (<= (slen p) (slen s)) (= (str_sub s 0 (slen p)) p)))
 (define-fun has_suffix ((s Str) (p Str)) Bool
   (and (<= (slen p) (slen s)) (= (str_sub s (- (slen s) (slen p)) (slen s)) p)))
+; unsafe.StringData / unsafe.String: the bytes behind a data pointer
+(declare-fun str_data (Str) Int)
+(declare-fun str_of (Int Int) Str)
+(assert (forall ((s Str)) (! (= (str_of (str_data s) (slen s)) s) :pattern ((str_data s)))))
+(assert (forall ((s Str)) (! (>= (str_data s) 0) :pattern ((str_data s)))))
